@@ -149,6 +149,17 @@ func xPatterns(level int) []xnode {
 		add(xseq{xlit{"a-", "A-"}, x})
 		add(xseq{x, xlit{"a-", "A-"}})
 	}
+	// counted groups whose body is an item next to a literal of two letters
+	for _, x := range small {
+		for _, l := range []xlit{{"ab", "AB"}, {"a-", "A-"}, {"ba", "BA"}} {
+			for _, q := range []string{"{2}", "{2,}", "+", "*"} {
+				add(xquant{xg("(?:", xseq{x, l}), q})
+				add(xquant{xg("(?:", xseq{l, x}), q})
+				add(xseq{xquant{xg("(?:", xseq{x, l}), q}, xanchor{"$", "^"}})
+				add(xseq{xanchor{"^", "$"}, xquant{xg("(?:", xseq{l, x}), q}})
+			}
+		}
+	}
 	tr := small
 	if level < 2 {
 		tr = tiny
@@ -372,7 +383,7 @@ func TestStandinMirror(t *testing.T) {
 	x := &xrun{show: factsEnvInt("STANDIN_FACTS_SHOW", 8)}
 	var plain, lines [][]rune
 	factsWords([]rune{'a', 'b', '-', '1'}, maxText, func(w []rune) { plain = append(plain, append([]rune(nil), w...)) })
-	for _, s := range []string{"abab", "ab-ab", "aab-b", "a1-a1", "aAbB", "-Ab-", "ab-b-", "aa-a-"} {
+	for _, s := range []string{"abab", "ab-ab", "aab-b", "a1-a1", "aAbB", "-Ab-", "ab-b-", "aa-a-", "abbab", "babba", "ababb", "a-a-a", "baab"} {
 		plain = append(plain, []rune(s))
 	}
 	factsWords([]rune{'a', '-', '\n'}, maxText, func(w []rune) { lines = append(lines, append([]rune(nil), w...)) })
@@ -478,11 +489,11 @@ func xcaseVariants(t []rune) [][]rune {
 
 func xCasePatterns(level int) []xnode {
 	atoms := []xatom{{"a", "A"}, {"b", "B"}, {"[ab]", "[AB]"}, {"[ab]", "[aB]"}, {"[^a]", "[^A]"}, {"[a-b]", "[A-B]"}, {"[^a-b]", "[^A-B]"},
-		{"[a-c-[b]]", "[A-C-[B]]"}, {`[\w-[a]]`, `[\w-[A]]`}, {".", "."}, {"-", "-"}, {"é", "É"}, {"[éa]", "[ÉA]"}, {"д", "Д"}, {"[^д]", "[^Д]"}, {"[а-д]", "[А-Д]"}, {"k", "K"}, {"[i-k]", "[I-K]"}}
+		{"[a-c-[b]]", "[A-C-[B]]"}, {`[\w-[a]]`, `[\w-[A]]`}, {`[\s\S-[a]]`, `[\s\S-[A]]`}, {".", "."}, {"-", "-"}, {"é", "É"}, {"[éa]", "[ÉA]"}, {"д", "Д"}, {"[^д]", "[^Д]"}, {"[а-д]", "[А-Д]"}, {"k", "K"}, {"[i-k]", "[I-K]"}}
 	quants := []string{"", "*", "+", "?", "{2}"}
 	items := xitems(atoms, quants)
-	small := xitems(atoms[:11], xBasicQ)
-	tiny := xitems([]xatom{atoms[0], atoms[2], atoms[4], atoms[7], atoms[10]}, []string{"", "*", "+"})
+	small := xitems(atoms[:12], xBasicQ)
+	tiny := xitems([]xatom{atoms[0], atoms[2], atoms[4], atoms[7], atoms[11]}, []string{"", "*", "+"})
 	var out []xnode
 	add := func(n xnode) { out = append(out, n) }
 	for _, x := range items {
